@@ -421,7 +421,12 @@ class Exec:
         defs = getattr(self.c, 'defs', None)
         if defs:
             node = _Macro(defs).visit(node)
-        return self.eval(node, st, spec=True)
+        saved = getattr(self, '_spec_mode', False)
+        self._spec_mode = True
+        try:
+            return self.eval(node, st, spec=True)
+        finally:
+            self._spec_mode = saved
 
     def spec_bool(self, src, st, use_old=False):
         v = self.spec_val(src, st, use_old)
@@ -1099,6 +1104,11 @@ class Exec:
                     return ty.some(z3.ToReal(v.t))
             if isinstance(ty, TSeq) and isinstance(v.ty, TSeq) and v.ty.key() == ty.key():
                 return v.t
+            if isinstance(v.ty, TOption) and v.ty.inner == ty:
+                # an optional value used where the plain value is needed: it must not be None
+                self.safety(st, z3.Not(v.ty.is_none(v.t)), f'value of type {v.ty.key()} is not None where '
+                            f'{ty.key()} is needed', None, getattr(self, '_spec_mode', False))
+                return v.ty.val(v.t)
             if ty is TBool:
                 return self.truthy(v, st)
         raise OutOfSubset(f'cannot coerce {v} to {ty}')
@@ -1499,6 +1509,11 @@ class Exec:
             k = z3.Int(sym.fresh_name('m'))
             x = self.to_term(item, s.ty.elem, st)
             return z3.Exists([k], z3.And(0 <= k, k < s.ty.f_len(s.t), s.ty.f_at(s.t, k) == x))
+        h = self.ms.intrinsics.get('contains')
+        if h:
+            r = h(self, st, [container, item], {}, node)
+            if r is not NotImplemented:
+                return r.t
         raise OutOfSubset(f'`in` on {container} at line {node.lineno}')
 
     def ex_Subscript(self, n, st, spec):
@@ -2193,6 +2208,10 @@ def _b_range(ex, st, args, kwargs, n, spec):
     else:
         raise OutOfSubset('range with step')
     cnt = z3.If(hi - lo < 0, 0, hi - lo)
+    lo_s = z3.simplify(lo)
+    if z3.is_int_value(lo_s) and lo_s.as_long() == 0:
+        # keep index terms free of arithmetic (they are used as quantifier patterns)
+        return IterSrc(z3.simplify(cnt), lambda k, s: Val(TInt, k), TInt)
     return IterSrc(z3.simplify(cnt), lambda k, s: Val(TInt, lo + k), TInt)
 
 
@@ -2347,6 +2366,42 @@ def _b_bool(ex, st, args, kwargs, n, spec):
     return Val(TBool, ex.truthy(args[0], st))
 
 
+def _b_sorted(ex, st, args, kwargs, n, spec):
+    """sorted(seq of ints): ascending permutation (MODEL: same length, ascending, same elements;
+    strictly ascending when the input has no duplicates)"""
+    if kwargs:
+        raise OutOfSubset('sorted with key/reverse')
+    v = args[0]
+    if isinstance(v, GenExp):
+        lc = ast.ListComp(elt=v.node.elt, generators=v.node.generators)
+        ast.copy_location(lc, v.node)
+        v = ex.ex_ListComp(lc, st, spec)
+    s = ex.as_seq(v, st)
+    if s is None or s.ty.elem is not TInt:
+        raise OutOfSubset('sorted of a non-integer sequence')
+    ty = s.ty
+    r = ty.fresh('sorted')
+    ex.ops(st).known(ty, r)
+    p, q = z3.Ints(sym.fresh_name('p') + ' ' + sym.fresh_name('q'))
+    n_ = ty.f_len(s.t)
+    at = ty.f_at
+    st.facts.add(ty.f_len(r) == n_)
+    st.facts.add(z3.ForAll([p, q], z3.Implies(z3.And(0 <= p, p < q, q < n_), at(r, p) <= at(r, q)),
+                           patterns=[z3.MultiPattern(at(r, p), at(r, q))]))
+    # permutation witnesses: r[p] == s[pi(p)], s[q] == r[sigma(q)], pi injective and onto
+    pi = z3.Function(sym.fresh_name('sort_pi'), z3.IntSort(), z3.IntSort())
+    sg = z3.Function(sym.fresh_name('sort_sigma'), z3.IntSort(), z3.IntSort())
+    st.facts.add(z3.ForAll([p], z3.Implies(z3.And(0 <= p, p < n_),
+                                           z3.And(0 <= pi(p), pi(p) < n_, at(r, p) == at(s.t, pi(p)),
+                                                  sg(pi(p)) == p)),
+                           patterns=[at(r, p)]))
+    st.facts.add(z3.ForAll([q], z3.Implies(z3.And(0 <= q, q < n_),
+                                           z3.And(0 <= sg(q), sg(q) < n_, at(s.t, q) == at(r, sg(q)),
+                                                  pi(sg(q)) == q)),
+                           patterns=[at(s.t, q)]))
+    return Val(ty, r) if spec else MList(ty, r)
+
+
 def _b_sum(ex, st, args, kwargs, n, spec):
     raise OutOfSubset('sum')
 
@@ -2355,6 +2410,6 @@ BUILTINS = {
     'len': _b_len, 'range': _b_range, 'zip': _b_zip, 'enumerate': _b_enumerate,
     'reversed': _b_reversed, 'list': _b_list, 'tuple': _b_tuple, 'max': _b_minmax(True),
     'min': _b_minmax(False), 'set': _b_set, 'isinstance': _b_isinstance, 'implies': _b_implies,
-    'abs': _b_abs, 'int': _b_int, 'float': _b_float, 'bool': _b_bool, 'sum': _b_sum,
+    'sorted': _b_sorted, 'abs': _b_abs, 'int': _b_int, 'float': _b_float, 'bool': _b_bool, 'sum': _b_sum,
     'all': None, 'any': None, 'old': None, 'rev': _b_rev, 'val': _b_val,
 }
